@@ -39,6 +39,7 @@ type scriptConn struct {
 	wdelay  func(i int)
 	openEnd bool      // more chunks may still be appended (outbound tests do not use reads)
 	rdl     time.Time // read deadline (zero: none), honoured the way a TCP connection does
+	wdl     time.Time // write deadline (zero: none): a write the peer holds up beyond it fails with a timeout
 }
 
 // errDeadline is what a read returns once its deadline has passed (a net.Error with Timeout() == true).
@@ -117,6 +118,11 @@ func (c *scriptConn) Write(p []byte) (int, error) {
 		d(i) // a slow peer: the bytes are taken only after the delay
 	}
 	c.mu.Lock()
+	if !c.wdl.IsZero() && time.Now().After(c.wdl) {
+		// the peer took longer than the write deadline in force allows: the write fails the way it does on TCP
+		c.mu.Unlock()
+		return 0, errDeadline{}
+	}
 	c.writes = append(c.writes, append([]byte{}, p...))
 	c.mu.Unlock()
 	return len(p), nil
@@ -129,11 +135,19 @@ func (c *scriptConn) Close() error {
 	c.cond.Broadcast()
 	return nil
 }
-func (c *scriptConn) LocalAddr() net.Addr                { return &net.TCPAddr{} }
-func (c *scriptConn) RemoteAddr() net.Addr               { return &net.TCPAddr{} }
-func (c *scriptConn) SetDeadline(t time.Time) error      { c.setReadDeadline(t); return nil }
-func (c *scriptConn) SetReadDeadline(t time.Time) error  { c.setReadDeadline(t); return nil }
-func (c *scriptConn) SetWriteDeadline(t time.Time) error { return nil } // writes never block for long here
+func (c *scriptConn) LocalAddr() net.Addr  { return &net.TCPAddr{} }
+func (c *scriptConn) RemoteAddr() net.Addr { return &net.TCPAddr{} }
+func (c *scriptConn) SetDeadline(t time.Time) error {
+	c.setReadDeadline(t)
+	return c.SetWriteDeadline(t)
+}
+func (c *scriptConn) SetReadDeadline(t time.Time) error { c.setReadDeadline(t); return nil }
+func (c *scriptConn) SetWriteDeadline(t time.Time) error {
+	c.mu.Lock()
+	c.wdl = t
+	c.mu.Unlock()
+	return nil
+}
 func (c *scriptConn) WrittenBytes() int {
 	c.mu.Lock()
 	defer c.mu.Unlock()
